@@ -192,6 +192,14 @@ def jobs(tier, seed):
         js.append(Job("v1rep.2x2.%s.v1" % form, "props.c08:h_v1",
                       {"shape": [2, 2], "form": form, "protocol": "v1", "limits": True, "names": ["a", "b.c", "zzz", "a"], "prefixes": [0, 2]},
                       reach=["C08.v1-meaning(AND of OR, -/~ negate, @ optional)"], min_paths=10, cost=4 ** 4, validate=40, closure=False))
+    # a later group whose tags all occur in an earlier group still narrows the selection
+    for form in ("list", "string"):
+        js.append(Job("v1rep.2x1.%s.v1" % form, "props.c08:h_v1",
+                      {"shape": [2, 1], "form": form, "protocol": "v1", "limits": False, "names": ["a", "b.c", "a"], "prefixes": [0, 2]},
+                      reach=["C08.v1-meaning(AND of OR, -/~ negate, @ optional)"], min_paths=8, cost=4 ** 3, validate=40, closure=False))
+        js.append(Job("v1rep.1x2.%s.v1" % form, "props.c08:h_v1",
+                      {"shape": [1, 2], "form": form, "protocol": "v1", "limits": False, "names": ["a", "b.c", "a"], "prefixes": [0, 2]},
+                      reach=["C08.v1-meaning(AND of OR, -/~ negate, @ optional)"], min_paths=8, cost=4 ** 3, validate=40, closure=False))
     js.append(Job("config-history", "props.c08:h_config_history", {},
                   reach=["C08.earlier-configuration-does-not-change-dialect"], min_paths=10, cost=50, validate=40, closure=False))
     trees = trees_for(tier, seed)
